@@ -118,7 +118,9 @@ def render_case(case, uid, macroset=None):
 
     def cur():
         return sum(len(x) for x in out)
-    out.append(name + "!(")
+    # the inter-token layout also applies between the `!` and the opening parenthesis (every second statement)
+    hg = g if (uid % 2 == 0 and head not in ("linecomment", "blockcomment", "doccomment", "instring", "starcomment", "bannercomment")) else ""
+    out.append(name + "!" + hg + "(")
     gap_start = cur()
     if head == "noargs":
         out.append(")")
